@@ -30,11 +30,12 @@ Inductive case := K (word addr : Z) (big : bool) (obs : lifted) (samples : list 
 Fixpoint assocZ (l : list (Z * Z)) (k : Z) : option Z :=
   match l with [] => None | (a, v) :: t => if a =? k then Some v else assocZ t k end.
 
-Definition default_reg (salt r : Z) : Z := ((salt + r + 1) * 11400714819323198485) mod 2 ^ 64.
-Definition default_byte (salt a : Z) : Z := (a * 167 + (a / 256) * 13 + salt) mod 256.
+(* Z.land / Z.shiftr instead of mod / div: Z division is bit-serial and dominates the evaluation otherwise *)
+Definition default_reg (salt r : Z) : Z := Z.land ((salt + r + 1) * 11400714819323198485) 18446744073709551615.
+Definition default_byte (salt a : Z) : Z := Z.land (a * 167 + Z.shiftr a 8 * 13 + salt) 255.
 
 Definition mk_state (addr : Z) (big : bool) (sm : sample) : a64state :=
-  let reg := fun r => match assocZ (s_ovr sm) r with Some v => v mod 2 ^ 64 | None => default_reg (s_salt sm) r end in
+  let reg := fun r => match assocZ (s_ovr sm) r with Some v => Z.land v 18446744073709551615 | None => default_reg (s_salt sm) r end in
   mkA reg (reg 31)
       (Z.testbit (s_nzcv sm) 3) (Z.testbit (s_nzcv sm) 2) (Z.testbit (s_nzcv sm) 1) (Z.testbit (s_nzcv sm) 0)
       (default_byte (s_salt sm)) addr big.
